@@ -368,7 +368,9 @@ func TestC14Literal(t *testing.T) {
 		if err != nil || !reflect.DeepEqual(dec, v) {
 			t.Fatalf("HARNESS-ERROR: JSON speller wrote %q for %s (%v)", text, ref.Canon(v), err)
 		}
-		expr := "`" + text + "`"
+		// JSON white space may surround the value inside the backticks as well
+		pad := func(label string) string { return []string{"", "", " ", "\n", "\t", " \r\n "}[uni(t, 6, label)] }
+		expr := "`" + pad("padL") + text + pad("padR") + "`"
 		run(t, Case{Property: "C14", Kind: "literal", Expr: expr, Doc: ref.Canon(v)})
 	})
 }
